@@ -107,6 +107,10 @@ class Orphan:
             self.sh.wait()
 
 
+class Hang(BaseException):
+    pass
+
+
 class Gate:
     """Interception of the scheduler's accesses to the orphan's files and process"""
 
@@ -129,6 +133,8 @@ class Gate:
             if self.plan:
                 self.plan.pop(0)
             self.accesses.append(kind)
+            if kind == "pidfile?" and self.o.jpc == "spawned" and not os.path.exists(str(self.o.pidf)):
+                self.sawempty = True
             if kind == "pidread":      # (os.path, not pathlib: the methods of Path are the ones being intercepted)
                 try:
                     self.sawempty = self.sawempty or os.path.getsize(str(self.o.pidf)) == 0
@@ -262,9 +268,6 @@ def one(case):
         g.install()
         res = {}
 
-        class Hang(BaseException):
-            pass
-
         def on_alarm(signum, frame):
             raise Hang()
 
@@ -283,8 +286,12 @@ def one(case):
             from experimaestro import experiment
             from experimaestro.scheduler import base as sbase
 
-            xp = experiment(h.wd, "x", launcher=h.launcher, port=-1)
-            xp.__enter__()
+            try:
+                xp = experiment(h.wd, "x", launcher=h.launcher, port=-1)
+                xp.__enter__()
+            except Hang:
+                res["hang"] = True
+                return
             try:
                 t = h.W(n=1).tag("n", "1")
                 t.submit()
@@ -298,7 +305,7 @@ def one(case):
             except BaseException as e:  # noqa
                 res["exc"] = repr(e)[:300]
             try:
-                signal.alarm(10)
+                signal.alarm(30)
                 xp.__exit__(None, None, None)
             except sbase.FailedExperiment:
                 pass
@@ -309,7 +316,7 @@ def one(case):
                 signal.alarm(0)
 
         old = signal.signal(signal.SIGALRM, on_alarm)
-        signal.alarm(15)
+        signal.alarm(60)
         try:
             body()                  # (an experiment can only be entered from the main thread)
         finally:
@@ -348,7 +355,7 @@ def judge(obs, want=None):
     if obs["launched"] and obs["at_start"]:
         if obs["at_start"]["done"]:
             bad.append(("NoRelaunchOfSuccess", f"{what}: the job is launched again although its success marker was there"))
-        if obs["at_start"]["jpc"] == "run" and not obs["at_start"].get("sawempty") and c["start"] != "spawned":
+        if obs["at_start"]["jpc"] == "run" and not obs["at_start"].get("sawempty"):
             bad.append(("NoRelaunchOfRunning", f"{what}: the job is launched again while its process was running its body"))
     if not obs["launched"] and not bad:
         if obs["state"] == "DONE" and c["out"] != "ok":
